@@ -1053,6 +1053,63 @@ static void sc_fr(SB* s, Toks* k, int rewrite)
 	free(b);
 }
 
+/* fsk HEX : header, table metadata, then sbdf_ts_skip until a non-OK status (C07) */
+static void sc_fsk(SB* s, Toks* k)
+{
+	int l, maj = -1, min = -1, st, ncalls = 0, posok = 0;
+	unsigned char* b = unhex(nx(k), &l);
+	sbdf_tablemetadata* tm = 0;
+	long live0 = vf_live;
+	f_load(g_f, b, (size_t)l);
+	st = sbdf_fh_read(g_f, &maj, &min);
+	sb_printf(s, "fh=%d", st);
+	if (!st)
+	{
+		sb_printf(s, ":%d.%d", maj, min);
+		st = sbdf_tm_read(g_f, &tm);
+		sb_printf(s, " tm=%d", st);
+		if (st) tm = 0;
+	}
+	if (!st)
+	{
+		for (;;)
+		{
+			if (ncalls++ >= l + 8) { sb_puts(s, " ts=FUEL"); posok = 1; break; }
+			st = sbdf_ts_skip(g_f, tm);
+			sb_printf(s, " ts=%d", st);
+			if (st) { posok = st == SBDF_TABLEEND; break; }
+		}
+	}
+	if (posok) sb_printf(s, " pos=%ld", ftell(g_f));
+	else sb_puts(s, " pos=-");
+	if (tm) sbdf_tm_destroy(tm);
+	sb_printf(s, " live=%ld", vf_live - live0);
+	free(b);
+}
+
+/* oskip TID HEX : sbdf_obj_read and sbdf_obj_skip of one unpacked object of type TID (C07) */
+static void sc_oskip(SB* s, Toks* k)
+{
+	int l, st;
+	sbdf_valuetype vt;
+	sbdf_object* o = (sbdf_object*)(void*)1;
+	unsigned char* b;
+	long live0 = vf_live;
+	vt.id = (int)nxl(k);
+	b = unhex(nx(k), &l);
+	f_load(g_f, b, (size_t)l);
+	st = sbdf_obj_read(g_f, vt, &o);
+	sb_printf(s, "rd=%d", st);
+	if (st == SBDF_OK) { sb_printf(s, "@%ld:", ftell(g_f)); dump_obj(s, o); sbdf_obj_destroy(o); }
+	else if (o != (sbdf_object*)(void*)1 && o != 0) sb_puts(s, "!OUTSET");
+	rewind(g_f);
+	st = sbdf_obj_skip(g_f, vt);
+	sb_printf(s, " sk=%d", st);
+	if (st == SBDF_OK) sb_printf(s, "@%ld", ftell(g_f));
+	sb_printf(s, " live=%ld", vf_live - live0);
+	free(b);
+}
+
 /* fw BUDGET TABLE : the stream accepts BUDGET bytes then refuses; every call is still made */
 static void sc_fw(SB* s, Toks* k)
 {
@@ -1136,6 +1193,8 @@ static void process_line(char* line, SB* s)
 	else if (!strcmp(kind, "rtw")) sc_rt(s, &k, 1);
 	else if (!strcmp(kind, "rtd")) sc_rt(s, &k, 2);
 	else if (!strcmp(kind, "cs")) sc_cs(s, &k);
+	else if (!strcmp(kind, "fsk")) sc_fsk(s, &k);
+	else if (!strcmp(kind, "oskip")) sc_oskip(s, &k);
 	else if (!strcmp(kind, "fr")) sc_fr(s, &k, 0);
 	else if (!strcmp(kind, "frw")) sc_fr(s, &k, 1);
 	else if (!strcmp(kind, "fw")) sc_fw(s, &k);
